@@ -460,14 +460,20 @@ Section Compile.
       | None => None
       end
     | SAssign x e =>
-      (* right side first, then the old value is freed, then claimOrCopy (2306-2335) *)
+      (* right side first; a non-temporary right side is copied into a (registered) temporary BEFORE the old
+         value is freed (it may be part of the old value: Speichere t in t); then the old value is freed and
+         the temporary claimed (VisitAssignStmt) *)
       match cexpr e cs with
       | Some (ie, re, cs1) =>
         match re, lookup (c_env cs1) x with
         | RPrim, _ => Some (ie, cs1)
         | _, Some (PSlot v) =>
-          match claim_or_copy v re cs1 with
-          | Some (icc, cs2) => Some (iseq [ie; IFree v; icc], cs2)
+          let '(ipre, re', cs1') := match re with
+                                    | RRef p => let (d, c') := fresh cs1 in (ICopy d p, RTemp d, add_temp d false c')
+                                    | _ => (ISkip, re, cs1)
+                                    end in
+          match claim_or_copy v re' cs1' with
+          | Some (icc, cs2) => Some (iseq [ie; ipre; IFree v; icc], cs2)
           | None => None
           end
         | _, _ => None
@@ -485,7 +491,12 @@ Section Compile.
                        | Some cs2 => Some (iseq [ie; IAssignPart v k s], cs2)
                        | None => None
                        end
-          | RRef p => Some (iseq [ie; IAssignPartCopy v k p], cs1)
+          | RRef p =>
+            let (d, c') := fresh cs1 in
+            match claim_temp d (add_temp d false c') with
+            | Some cs2 => Some (iseq [ie; ICopy d p; IAssignPart v k d], cs2)
+            | None => None
+            end
           end
         | _ => None
         end
